@@ -22,6 +22,7 @@ func main() {
 	timeout := flag.Int("t", 10, "solver timeout (s)")
 	ssaDump := flag.String("ssa", "", "print SSA of function key(s)")
 	propFlag := flag.String("prop", "", "verify every function and lemma tagged with this property")
+	replayFlag := flag.Bool("replay", false, "with -func: replay every obligation that failed with a model on the real code")
 	flag.Parse()
 	eng, err := loadEngine(*repo, findSpecFiles(*trusted))
 	if err != nil {
@@ -104,6 +105,9 @@ func main() {
 		}
 		fc.solveAll(opts, k)
 		report(fc)
+		if *replayFlag {
+			devReplay(eng, fc, *repo, *out) // replay_dev.go
+		}
 	}
 	for _, s := range eng.staleErrs {
 		fmt.Println(s)
